@@ -4,6 +4,12 @@ import json
 
 # id -> (technique, level text, level_note, design_ref)
 CLAIMED = {
+ "C03": ("explicit-state BFS (E2) over the VoxelSets operation machine with lock-step dyadic-box reference model + exhaustive choice-tree enumeration (E1) of the per-axis helpers",
+         "Every zoom-change transition of the machine (all states reachable within the depth bound from each world, 25 target zoom pairs each) is compared with an integer dyadic-box model through both APIs; the exported per-axis helpers are enumerated over all zoom pairs x index classes.",
+         "Trusted: ref.ChangeZoom (shifts). Bounds: BFS depth 3 quick / 4 thorough, state size <= 160, output <= 2048 IDs per call; indices outside alphabet classes not covered.", "4/C03"),
+ "C04": ("explicit-state BFS (E2) over the VoxelSets operation machine; each merge transition checked against dyadic-box reference, region equality by cell refinement, idempotence",
+         "Every merge transition reachable within the depth bound is compared with the reference merge, with an independent region-equality check, duplicate check, second application, and the single-zoom API on h=v states.",
+         "Trusted: ref.Merge/ref.Cells. Bounds as C03 plus <= 12000 unit cells per merge call.", "4/C04"),
  "C07": ("stateless choice-tree enumeration (E1) of IDs x shifts vs integer modular arithmetic + explicit-state BFS of the complete torus at zooms 0..3",
          "Exhaustive enumeration of a bounded input space (all zooms x index classes x offset classes relative to 2^h) and of the complete reachable state space of the shift machine at zooms 0..3; every execution/transition is compared with an integer reference model, and the algebraic laws (identity, composition, inverse) are checked on all pairs of a shift sub-alphabet.",
          "Trusted: Go toolchain, ref.Vox.Shift (10 lines of modular arithmetic). Nothing is claimed for indices/offsets outside the alphabet classes.", "4/C07"),
